@@ -27,8 +27,6 @@ UNIT = {
  'name': 'cmap',
  'doc': 'ToUnicode character maps: reader (bfchar, both bfrange forms) over token-level contracts; spelling of codes and texts by the writer',
  'timeout': 900,
- 'tolerances': {
- },
  'items': {
   'struct PlainRef': {'kind': 'decl', 'file': M, 'header': r'^pub struct PlainRef$', 'attrs': ['#[derive(Clone, Copy)]']},
   'struct PdfString': {'kind': 'decl', 'file': P, 'header': r'^pub struct PdfString$'},
@@ -60,7 +58,7 @@ UNIT = {
               'decreases': '%s.len() - lexer.pos' % B},
           2: section('bfchar_sec'),
           3: section('bfrange_sec'),
-          4: {'invariant': ['unicode_data@.len() > 0', '__rg.end@ == cid_end + 1', 'cid_start <= __rg.nxt@'],
+          4: {'invariant': [('destination_not_empty', 'unicode_data@.len() > 0'), '__rg.end@ == cid_end + 1', 'cid_start <= __rg.nxt@'],
               'invariant_except_break': [('range_prefix_mapped', 'range_str(map@, __rg.nxt@, cid_end as int, unicode_data@) == range_str(m1, cid_start as int, cid_end as int, d0)')],
               'ensures': [('range_mapped', 'map@ == range_str(m1, cid_start as int, cid_end as int, d0)')],
               'decreases': '__rg.end@ - __rg.nxt@'},
